@@ -241,7 +241,10 @@ class Oracle(object):
             d = pop(nh + 1)
             if d > 0:
                 raise ns['_E'][d - 1]()
+        def _oc(*a):
+            return [0] if pop(2) == 0 else []
         ns['_ob'] = _ob
+        ns['_oc'] = _oc
         ns['_ow'] = _ow_factory()
         ns['_it'] = _it
         ns['_raise'] = _raise
@@ -315,6 +318,11 @@ def corpus_trees():
         # binding must NOT reach the read after the statement (seeded C03-2)
         [A(1, 'y'), ('try', [A(2, 'x')], [([], None, [A(3, 'x')])], [A(4, 'x')], [R(10, 'y')], True, True), R(11, 'x')],
         [A(1, 'y'), ('try', [A(2, 'x')], [([], (3, 'e1'), [A(4, 'x')]), ([], None, [A(5, 'x')])], [A(6, 'x')], [R(10, 'y')], True, True), R(11, 'x')],
+        # F59: a comprehension in the value must not see the target being bound (plain, annotated, walrus, with)
+        [A(1, 'x'), ('comp', [], None, [(10, 'x')], [(2, 'x')], 'plain', []), R(11, 'x')],
+        [A(1, 'x'), ('comp', [(10, 'x')], [(11, 'x')], [(12, 'x')], [(2, 'x')], 'ann', []), R(13, 'x')],
+        [('comp', [], None, [(10, 'y')], [(1, 'y')], 'walrus', []), R(11, 'y')],
+        [A(1, 'a'), ('comp', [], None, [(10, 'a')], [(2, 'a')], 'with', [R(11, 'a')]), R(12, 'a')],
         # early return in a branch (C02 domain; phantom for C03 = K1)
         [('if', [], [A(1, 'x'), ('return',)], [A(2, 'x')]), R(10, 'x')],
     ]
